@@ -316,6 +316,16 @@ class PhaseWorld(World):
         opts["backend_options"] = {"target": "cirq", "n_shots": op["shots"]}
         self.sig.add((k, prob["kind"], m, ns, op["shots"] or 0, bool(op.get("script"))))
         site = f"{k}:{prob['kind']}"
+
+        def snap_args():
+            out = {}
+            for name, o in opts.items():
+                if hasattr(o, "_gates"):
+                    out[name] = C.snap_circuit(o)
+                elif hasattr(o, "terms"):
+                    out[name] = dict(o.terms)
+            return out
+        args_before = snap_args()
         try:
             solver = (IterativeQPESolver if k == "iqpe" else QPESolver)(opts)
             solver.build()
@@ -353,6 +363,22 @@ class PhaseWorld(World):
                 ctx.probe("C20.second_simulate_on_same_solver")
         if k == "iqpe" and (op["shots"] or 1) > 1:
             ctx.probe("C20.shots_after_first_reuse_controller")
+        # the caller's circuit / operator objects are left as they were, and can be handed to a second solver
+        if not V and snap_args() != args_before:
+            V.append(Violation("C20", "input-mutated", site + ":solver-arguments", {"op": op}))
+        if not V and op.get("np_seed", 0) % 4 == 0 and not op.get("script"):
+            other = QPESolver if k == "iqpe" else IterativeQPESolver
+            try:
+                opts2 = dict(opts)          # (same circuit / operator objects; the iterative variant needs a shot number)
+                opts2["backend_options"] = {"target": "cirq", "n_shots": op["shots"] or (1 if other is IterativeQPESolver else None)}
+                s2 = other(opts2)
+                s2.build()
+                e2 = s2.simulate()
+                ctx.probe("C20.same_argument_objects_second_solver")
+                if abs(e2 - phase) > 1e-12:
+                    V.append(Violation("C20", "phase-not-returned-with-certainty", site + ":second-solver-on-same-arguments", {"returned": e2, "expected": phase, "op": op}))
+            except Exception as ex:
+                V.append(Violation("C20", "unexpected-refusal", site + ":second-solver-on-same-arguments", {"exception": repr(ex)[:300], "op": op}))
         ctx.outcome(k, "ok" if not V else "violation")
         return V
 
